@@ -112,6 +112,16 @@ def cases(d):
             samples.insert(d.randint(1, len(samples)), [d.choice(tv), 1, "raise"])
     cg = {"name": "CG", "params": [{"name": "a", "type": t}] + ([{"name": "en", "type": {"kind": "bit", "w": 1}}] if iff else []),
           "options": {"auto_bin_max": abm}, "cps": [cp]}
+    objs = None
+    if tk != "enum" and not cp.get("target_style") and d.chance(25):
+        # the covergroup samples an OBJECT (with_sample(dict(it=Item()))): the coverpoint targets it.a, the iff reads it.en;
+        # the samples pass one of a few item objects (their fields assigned before the call) or a new object each
+        cg["params"] = [{"name": "it", "type": {"kind": "obj", "cls": "Item"}}]
+        cg["item"] = t
+        cp["target"] = "it.a"
+        if iff:
+            cp["iff"] = {iff: "it.en"}
+        objs = [d.randint(-1, 2) for _ in samples]
     if cp.get("bins") and d.chance(30):
         # ONE bins dictionary (the same specification objects) given to two coverpoints of the covergroup: building the
         # first must not change what the second gets
@@ -125,11 +135,23 @@ def cases(d):
             if d.chance(50):
                 cp2["ignore"] = [{"name": "ig0", "items": gen_items(d, lo, hi, 2)}]
         cg["cps"].append(cp2)
-    return {"cg": cg, "enums": enums, "samples": samples}
+    case = {"cg": cg, "enums": enums, "samples": samples}
+    if objs is not None:
+        case["objs"] = objs
+    return case
+
+
+def item_source(case):
+    t = case["cg"].get("item")
+    if not t:
+        return ""
+    return ("@vsc.randobj\nclass Item(object):\n    def __init__(self):\n        self.a = %s\n        self.en = vsc.bit_t(1)\n\n"
+            % cov.type_src(t))
 
 
 def text_of(case):
-    return cov.enums_source(case["enums"]) + cov.cg_source(case["cg"]) + "# samples (value, iff): %s" % cjson(case["samples"])
+    return cov.enums_source(case["enums"]) + item_source(case) + cov.cg_source(case["cg"]) + "# samples (value, iff): %s%s" % (
+        cjson(case["samples"]), ("\n# item object passed with each sample (-1 = a new one): %s" % cjson(case["objs"])) if case.get("objs") else "")
 
 
 _PROP = [PROPERTY]
@@ -147,15 +169,18 @@ def run_case(case, prop=PROPERTY):
     cg = case["cg"]
     cp = cg["cps"][0]
     enums = case["enums"]
-    t = cg["params"][0]["type"]
+    t = cg.get("item") or cg["params"][0]["type"]
+    if t.get("kind") == "obj":
+        return [], {}
     tv = cov.type_values(t, enums)
     refs = {c_["name"]: cov.ref_bins(c_, tv, cg["options"]["auto_bin_max"]) for c_ in cg["cps"]}
     reg, ign, ill = refs[cp["name"]]
     reset_library()
     try:
-        ns = cov.build([cg], enums)
+        ns = cov.build([cg], enums, item_source(case))
         o = ns["CG"]()
         models = [(c_["name"], cov.cp_model(o, c_["name"])) for c_ in cg["cps"]]
+        pool = [ns["Item"]() for _ in range(3)] if cg.get("item") else None
     except Exception as e:
         reset_library()
         return [V("library_exception", "construction: " + exc_sig(e), case, repr(e)[:200])], {}
@@ -166,7 +191,21 @@ def run_case(case, prop=PROPERTY):
             return [V("bin_count", "regular/ignore/illegal bin counts differ from the reference", case,
                       "coverpoint %s: library %s, reference %s" % (cname, [len(x) for x in h], [len(x) for x in refs[cname]]))], info
     has_iff = bool(cp.get("iff"))
-    for smp in case["samples"]:
+    objs = case.get("objs") or []
+
+    def do_sample(k_, v_, en_):
+        if pool is None:
+            if has_iff:
+                o.sample(v_, en_)
+            else:
+                o.sample(v_)
+            return
+        oi = objs[k_] if k_ < len(objs) and isinstance(objs[k_], int) else 0
+        item = ns["Item"]() if oi < 0 else pool[oi % len(pool)]
+        item.a = v_
+        item.en = en_
+        o.sample(item)
+    for k_smp, smp in enumerate(case["samples"]):
         v, en = smp[0], smp[1]
         if len(smp) > 2:
             # the user's callable raises during this sample() call; what this call counted is not judged
@@ -191,7 +230,9 @@ def run_case(case, prop=PROPERTY):
             if t["kind"] == "enum":
                 spec = enums[t["enum"]]
                 arg = getattr(ns[t["enum"]], [mm[0] for mm in spec["members"] if mm[1] == v][0])
-            if has_iff:
+            if pool is not None:
+                do_sample(k_smp, v, en)
+            elif has_iff:
                 o.sample(arg, en)
             else:
                 o.sample(arg)
@@ -368,7 +409,7 @@ def nontrivial_wide(case):
 def nontrivial(case):
     cg = case["cg"]
     cp = cg["cps"][0]
-    t = cg["params"][0]["type"]
+    t = cg.get("item") or cg["params"][0]["type"]
     tv = cov.type_values(t, case["enums"])
     excl = set()
     for b in (cp.get("ignore") or []) + (cp.get("illegal") or []):
@@ -405,7 +446,9 @@ def body(case, acc):
     cp = cg["cps"][0]
     acc.case(case, nontrivial(case), sample=text_of(case), n=1)
     acc.label("samples", len(case["samples"]))
-    acc.label("type:" + cg["params"][0]["type"]["kind"])
+    acc.label("type:" + (cg.get("item") or cg["params"][0]["type"])["kind"])
+    if cg.get("item"):
+        acc.label("sampling: an object per sample (pool of 3 and new ones)")
     acc.label("bins:auto" if cp.get("bins") is None else "bins:explicit")
     if cp.get("ignore"):
         acc.label("has ignore bins")
